@@ -1045,6 +1045,45 @@ func (c *Ctx) runTags(walker *ssa.Function) {
 				c.R.Add("TAGS", key, core.FuncName(f), p.InstrPos(in), okk, "a generated struct tag uses the reader's namespace, leaves the name part empty and only option keys the reader knows", why)
 				return
 			}
+			// `ns:"` + strings.Join(parts, ",") + `"`
+			if lv := flattenConcat(src); len(lv) > 1 {
+				format, okForm := "", true
+				var join *ssa.Call
+				for _, leaf := range lv {
+					if s, ok := core.ConstString(leaf); ok {
+						format += s
+					} else if j, ok := leaf.(*ssa.Call); ok && core.CalleeName(j.Common()) == "strings.Join" && join == nil {
+						join = j
+						format += "%s"
+					} else {
+						okForm = false
+					}
+				}
+				if okForm && join != nil {
+					nsOK := strings.HasPrefix(format, readerKey+`:"`) && strings.HasSuffix(format, `"`)
+					parts := c.tagPartsOfJoin(join)
+					okk := nsOK
+					why := fmt.Sprintf("format=%q parts=%v", format, parts)
+					if len(parts) == 0 || parts[0] != "" {
+						okk = false
+						why += " (first tag part must be empty: generated fields are never renamed)"
+					}
+					if len(parts) > 0 {
+						for _, prt := range parts[1:] {
+							k := prt
+							if i := strings.Index(k, "="); i >= 0 {
+								k = k[:i]
+							}
+							if !readerOpts[k] {
+								okk = false
+								why += fmt.Sprintf(" (option %q unknown to the reader)", k)
+							}
+						}
+					}
+					c.R.Add("TAGS", key, core.FuncName(f), p.InstrPos(in), okk, "a generated struct tag uses the reader's namespace, leaves the name part empty and only option keys the reader knows", why)
+					return
+				}
+			}
 			c.R.Undecided("TAGS", key, core.FuncName(f), p.InstrPos(in), "struct tag built from an unrecognised expression "+core.Path(src))
 		})
 	}
@@ -1087,22 +1126,41 @@ func (c *Ctx) runTags(walker *ssa.Function) {
 		if sl, ok := r.(*ssa.Slice); ok {
 			_ = sl
 		}
-		for v := mu.Key; v != nil; {
+		var fromSplitRest func(v ssa.Value, d int) bool
+		fromSplitRest = func(v ssa.Value, d int) bool {
+			if v == nil || d > 8 {
+				return false
+			}
 			switch x := v.(type) {
+			case *ssa.Phi:
+				for _, e := range x.Edges {
+					if !fromSplitRest(e, d+1) {
+						return false
+					}
+				}
+				return len(x.Edges) > 0
 			case *ssa.Slice:
-				v = x.X
-				continue
+				return fromSplitRest(x.X, d+1)
+			case *ssa.Extract:
+				return fromSplitRest(x.Tuple, d+1)
+			case *ssa.Call:
+				switch core.CalleeName(x.Common()) {
+				case "strings.Cut", "strings.SplitN", "strings.TrimSpace", "strings.ToLower":
+					return fromSplitRest(x.Common().Args[0], d+1)
+				}
 			case *ssa.UnOp:
 				if ia, ok := x.X.(*ssa.IndexAddr); ok {
 					if sl, ok := ia.X.(*ssa.Slice); ok && sl.X == ssa.Value(split) {
 						if k, ok := core.ConstInt(sl.Low); ok && k == 1 {
-							okSrc = true
+							return true
 						}
 					}
+					return fromSplitRest(ia.X, d+1)
 				}
 			}
-			break
+			return false
 		}
+		okSrc = fromSplitRest(mu.Key, 0)
 		if !okSrc {
 			fromRest = false
 		}
@@ -1209,6 +1267,18 @@ func (c *Ctx) tagParts(f *ssa.Function, cl *ssa.Call) []string {
 			join = j
 		}
 	}
+	return c.tagPartsOfJoin(join)
+}
+
+// flattenConcat lists the leaves of a chain of string concatenations, left to right.
+func flattenConcat(v ssa.Value) []ssa.Value {
+	if b, ok := v.(*ssa.BinOp); ok && b.Op == token.ADD {
+		return append(flattenConcat(b.X), flattenConcat(b.Y)...)
+	}
+	return []ssa.Value{v}
+}
+
+func (c *Ctx) tagPartsOfJoin(join *ssa.Call) []string {
 	if join == nil {
 		return nil
 	}
@@ -1235,22 +1305,38 @@ func (c *Ctx) tagParts(f *ssa.Function, cl *ssa.Call) []string {
 						if s, ok := core.ConstString(sp.Common().Args[0]); ok {
 							parts = append(parts, s)
 						}
+					} else if lv := flattenConcat(e); len(lv) > 1 {
+						// "key=" + value
+						if s, ok := core.ConstString(lv[0]); ok {
+							parts = append(parts, s+"%s")
+						}
 					}
 				}
+			}
+		case *ssa.MakeSlice:
+			// make([]string, n, …): n empty leading parts
+			if n, ok := core.ConstInt(x.Len); ok && n > 0 {
+				parts = append([]string{""}, parts...)
 			}
 		case *ssa.Slice:
 			// slice literal: elements stored into the backing array
 			if al, ok := x.X.(*ssa.Alloc); ok {
+				stored := 0
 				for _, ref := range *al.Referrers() {
 					if ia, ok := ref.(*ssa.IndexAddr); ok {
 						for _, r2 := range *ia.Referrers() {
 							if st, ok := r2.(*ssa.Store); ok {
+								stored++
 								if s, ok := core.ConstString(st.Val); ok {
 									parts = append([]string{s}, parts...)
 								}
 							}
 						}
 					}
+				}
+				// make([]string, n, cap) with constant sizes: n zero-valued (empty) leading parts
+				if n, ok := core.ConstInt(x.High); ok && stored == 0 && n > 0 {
+					parts = append([]string{""}, parts...)
 				}
 			}
 		}
